@@ -128,7 +128,12 @@ fn twin_leaf() -> BoxedStrategy<E> {
 
 pub fn strategy(max_depth: u32, max_size: u32) -> BoxedStrategy<Case> {
     (
-        prop_oneof![5 => gen::expr_over(gen::supported_leaf(), max_depth, max_size, true), 1 => gen::expr_over(twin_leaf(), max_depth, max_size, true)],
+        prop_oneof![
+            10 => gen::expr_over(gen::supported_leaf(), max_depth, max_size, true),
+            2 => gen::expr_over(twin_leaf(), max_depth, max_size, true),
+            // values only a hand-built tree can carry, and explicit precedence nodes around sub-trees
+            1 => gen::expr_over(prop_oneof![3 => gen::supported_leaf(), 1 => gen::handbuilt_only_test().prop_map(E::T)].boxed(), max_depth, max_size, true),
+        ],
         proptest::collection::vec(files::random_file(PLACEHOLDER_NOW), 3..9),
         prop_oneof![3 => Just(None), 1 => gen::count_u32().prop_map(Some)],
         prop::bool::weighted(0.2),
